@@ -64,6 +64,8 @@ def lat(j):
 
 
 TWO32 = 1 << 32
+EPOCH = Fr('1700000000.625')                   # harness/impl/c07.py boots the virtual clock with this wall-clock time
+NTP_OFFSET = int((EPOCH + 2208988800) * TWO32)   # 1900 -> 1970, in timetag units: what every RT timetag is relative to
 
 
 class Check(common.Check):
@@ -202,7 +204,7 @@ class Check(common.Check):
         lines, plan = [], []
         for c, o in zip(cases, impl_outs):
             p = {'times': {}, 'rt': [], 'rcv': [], 'nrt': []}
-            t0, off = o['rt']['t0'], o['rt']['offset']
+            t0, off = o['rt']['t0'], NTP_OFFSET
             tempo = Fr(c['tempo'])
             for mode, base in (('rt', t0), ('nrt', '0')):
                 for rid, r in enumerate(c['routines']):
@@ -217,7 +219,7 @@ class Check(common.Check):
         # second pass: the sends, with the model's own times
         lines2 = []
         for c, o, p in zip(cases, impl_outs, plan):
-            t0, off = o['rt']['t0'], o['rt']['offset']
+            t0, off = o['rt']['t0'], NTP_OFFSET
 
             def secs(mode, who, k):
                 if who == 'main':
@@ -416,7 +418,7 @@ class Check(common.Check):
         rt, nrt = out['rt'], out['nrt']
         if rt['died']:
             return {'what': f'clock thread died: {rt["died"]}', 'signature': 'c07:thread-died'}
-        t0, off = F(rt['t0']), rt['offset']
+        t0, off = F(rt['t0']), NTP_OFFSET
         # ---- real time ----
         for rec, rcv in zip(rt['sends'], rt['recv']):
             kind, val = self.send_value(case, rec['who'], rec['k'])
@@ -448,6 +450,11 @@ class Check(common.Check):
             if rcv is None or sorted(rcv, key=F) != sorted(want, key=F):
                 return {'what': f'{where}: receive functions got times {rcv}, the timetags say {want}',
                         'signature': 'c07:recv-time'}
+        if rt['offset'] != NTP_OFFSET:
+            d = Fr(rt['offset'] - NTP_OFFSET, TWO32)
+            return {'what': f'the clock converts elapsed time to NTP timetags with offset {rt["offset"]}; the library was '
+                            f'initialised at wall-clock time {fr(EPOCH)} s (Unix), i.e. {NTP_OFFSET}: every timetag is off by '
+                            f'{fr(d)} s against the wall clock', 'signature': 'c07:ntp-offset'}
         # ---- non-real time ----
         if 'exc' in nrt:
             return {'what': f'main.process raised {nrt["exc"]}', 'signature': 'c07:process-raised'}
